@@ -279,6 +279,12 @@ func genHistory(r *rand.Rand, idx int) []op {
 			exists[mid] = false
 		case k == 6 && exists[mid]:
 			o = op{Kind: "recreate", Via: "direct", Mid: mid, Spec: newSpec()}
+		case k == 7 && exists[mid] && idx%5 != 0:
+			// roll back: the most recent create of this id again, verbatim, while the machine exists
+			if prev, had := lastCreate[mid]; had {
+				o = prev
+				o.Via = via
+			}
 		case k == 7 && exists[mid] && idx%5 == 0:
 			o = op{Kind: "replaceSpecBad", Via: "captain", Mid: mid, Spec: fmt.Sprintf("bad-%d-%d", idx, specN)}
 		case k < 10:
@@ -292,6 +298,13 @@ func genHistory(r *rand.Rand, idx int) []op {
 			continue
 		}
 		h = append(h, o)
+	}
+	if idx%7 == 3 {
+		// deploy with an explicit state, swap only the spec, roll back by repeating the
+		// deployment verbatim, then use the machine
+		dep := op{Kind: "create", Via: "captain", Mid: "m2", Spec: newSpec(), State: map[string]interface{}{"node": "start", "bs": map[string]interface{}{"n": 1.0}}}
+		uidN++
+		h = append(h, dep, op{Kind: "replaceSpec", Via: "captain", Mid: "m2", Spec: newSpec()}, dep, op{Kind: "msg", Via: "captain", Mid: "m2", Uid: fmt.Sprintf("u%d", uidN)})
 	}
 	// histories end with a message so that direct changes get reported
 	uidN++
@@ -316,6 +329,9 @@ func featureOf(h []op) []string {
 				fs = append(fs, "delete_recreate_before_report")
 			}
 		case "create":
+			if i >= 2 && h[i-1].Kind == "replaceSpec" && h[i-1].Mid == o.Mid && h[i-2].Kind == "create" && h[i-2].Mid == o.Mid && h[i-2].Spec == o.Spec && o.State != nil {
+				fs = append(fs, "spec_swap_rolled_back_by_repeating_the_deployment")
+			}
 			if deleted[o.Mid] {
 				fs = append(fs, "recreate_across_messages")
 				for _, p := range h[:i] {
@@ -333,8 +349,8 @@ func featureOf(h []op) []string {
 
 func Run(cfg fw.Config, rec *fw.Rec) {
 	log.SetOutput(io.Discard)
-	rec.Rule = "histories of 4-13 crew operations over machine ids {m1,m2,m3}: create (with/without state), replace state, replace spec (and, in a fifth of the histories, a spec that does not compile), delete, delete+re-create before the next report, re-create across messages (also byte-identical to an earlier create) - through captain messages and through direct SetMachine / DeleteMachine calls - interleaved with routed and broadcast messages to counter / recorder machines whose reactions commute; after every message the shadow store folded from Result.Changed must equal the live crew (existence, node, bindings, spec name); at every message boundary a crew booted from the JSON-round-tripped shadow must give the same emissions and machine states for the rest of the history; end to end: the same kind of histories typed into a crew wired like sio/siostd (real Stdio coupling, state file rewritten after every message): the state file must equal the live crew, and a crew started from the state file written after a prefix must end like, and emit like, the uninterrupted one; non-trivial = history with >= 2 crew operations other than messages; distinct by history"
-	rec.Required = []string{"shadow_equal_after_message", "restarts_compared", "replace_state", "replace_spec", "delete_recreate_before_report", "recreate_across_messages", "recreate_identical_to_an_earlier_create", "stdio_state_file_equals_crew", "stdio_restarts_compared"}
+	rec.Rule = "histories of 4-13 crew operations over machine ids {m1,m2,m3}: create (with/without state), replace state, replace spec (and, in a fifth of the histories, a spec that does not compile), delete, delete+re-create before the next report, re-create across messages (also byte-identical to an earlier create), roll back a spec swap by repeating the original deployment verbatim - through captain messages and through direct SetMachine / DeleteMachine calls - interleaved with routed and broadcast messages to counter / recorder machines whose reactions commute; after every message the shadow store folded from Result.Changed must equal the live crew (existence, node, bindings, spec name); at every message boundary a crew booted from the JSON-round-tripped shadow must give the same emissions and machine states for the rest of the history; end to end: the same kind of histories typed into a crew wired like sio/siostd (real Stdio coupling, state file rewritten after every message): the state file must equal the live crew, and a crew started from the state file written after a prefix must end like, and emit like, the uninterrupted one; non-trivial = history with >= 2 crew operations other than messages; distinct by history"
+	rec.Required = []string{"shadow_equal_after_message", "restarts_compared", "replace_state", "replace_spec", "delete_recreate_before_report", "recreate_across_messages", "recreate_identical_to_an_earlier_create", "spec_swap_rolled_back_by_repeating_the_deployment", "stdio_state_file_equals_crew", "stdio_restarts_compared"}
 	rec.Assume = []string{"reactions of different machines to one message commute (machines only touch their own bindings and emit to nobody)", "a missing stored state is the default start/{} the boot path supplies", "service machines captain and timers are not compared"}
 	n := cfg.Pick(1200, 20000)
 	fw.Parallel(cfg.Workers, n, func(w, i int) {
